@@ -225,6 +225,7 @@ class Ctx:
             self.corr_broken.append("model driver exited %d: %s" % (p.returncode, p.stderr[-1000:]))
             return {}, [], []
         summ, mism, mon = {}, [], []
+        self.last_notes = [l for l in p.stdout.splitlines() if l.startswith("NOTE")]
         for l in p.stdout.splitlines():
             if l.startswith("SUMMARY"):
                 for kv in l.split()[1:]:
